@@ -81,7 +81,7 @@ class _Worker(object):
 
 
 def run_cases(cases, target, nworkers=None, python=None, timeout=20.0, batch=1, env=None, on_result=None,
-              cmd=None, deadline=None):
+              cmd=None, deadline=None, oneshot=False):
     """Run `cases` (iterable of JSON-able dicts) through workers.
 
     target: "module:function" executed by vf.worker; or give an explicit cmd list.
@@ -143,6 +143,14 @@ def run_cases(cases, target, nworkers=None, python=None, timeout=20.0, batch=1, 
                         out = [{'inconclusive': reason} for _ in b]
                 else:
                     out = res['batch']
+                if oneshot and w is not None:
+                    # a fresh process per message
+                    try:
+                        w.proc.stdin.close()
+                    except Exception:
+                        pass
+                    w.kill()
+                    w = None
                 with lock:
                     for c, r in zip(b, out):
                         results.append((c, r))
